@@ -805,12 +805,61 @@ def search(ctx, hints):
         consider(case)
         if len(samples) < 2:
             samples.append(case)
+    # numeric categories (object column holding numbers): "sorted training categories" is the numeric order
+    for t in range(ctx.pick(30, 300)):
+        sd = rng.randrange(1 << 30)
+        evals += 1
+        nontriv.add("numeric:%d" % sd)
+        for key, what, obs, req in numeric_oracle(sd):
+            v = Violation(K + key, what, {"numeric_seed": sd}, obs, req)
+            best.setdefault(v.key, v)
     return list(best.values()), {"evaluations": evals, "distinct_nontrivial": len(nontriv), "samples": samples}
+
+
+def numeric_oracle(seed):
+    """categories that are numbers: single=True gives the rank among the numerically sorted training categories;
+    single=False gives exactly the indicator `column=value`"""
+    import random
+    import numpy
+    import pandas
+    from mlinsights.mlmodel.categories_to_integers import CategoriesToIntegers
+    rng = random.Random(seed)
+    pool = rng.sample([2, 10, 33, 100, 7, 1000, 25, 3, -4, 12, 120, 9], rng.randint(2, 6))
+    if rng.random() < 0.3:
+        pool = [float(v) + 0.5 for v in pool]
+    vals = [rng.choice(pool) for _ in range(rng.randint(3, 9))] + pool
+    df = pandas.DataFrame({"c": pandas.Series(vals, dtype=object), "x": numpy.arange(len(vals), dtype=float)})
+    bad = []
+    ranks = {v: i for i, v in enumerate(sorted(set(vals)))}
+    try:
+        out = CategoriesToIntegers(columns=["c"], single=True).fit(df).transform(df)
+        got = [float(v) for v in out["c"]]
+        want = [float(ranks[v]) for v in vals]
+        if got != want:
+            bad.append(("single-rank", "single=True: the code is not the rank of the value among the sorted training categories",
+                        {"values": vals, "codes": got}, want))
+        out = CategoriesToIntegers(columns=["c"]).fit(df).transform(df)
+        for i, v in enumerate(vals):
+            for col in out.columns:
+                if col == "x":
+                    continue
+                cell = out[col].iloc[i]
+                is_one = (not pandas.isna(cell)) and float(cell) == 1.0
+                if is_one != (col == "c=%s" % v):
+                    bad.append(("wrong-indicator", "numeric categories: a row's indicator is not the one named column=value",
+                                {"row": i, "value": v, "column": col, "cell": repr(cell)}, "only c=%s is 1" % v))
+                    return bad
+    except Exception as e:  # noqa: BLE001
+        bad.append(("raises-%s-on-seen-values" % type(e).__name__, "transform raises on numeric categories seen at fit",
+                    "%s: %s" % (type(e).__name__, str(e)[:120]), "no exception"))
+    return bad
 
 
 def replay(ctx, item):
     ctx.shadow(need_cython=False)
     case = item["input"]
+    if "numeric_seed" in case:
+        return [Violation(K + k, w, case, o, r) for k, w, o, r in numeric_oracle(case["numeric_seed"])][:1]
     best = {}
     for key, what, obs, req in oracle(case):
         best.setdefault(K + key, Violation(K + key, what, case, obs, req))
